@@ -1134,3 +1134,160 @@ Proof.
     destruct ocom as [[ca cb]|], ofee as [[fa fb]|]; cbn [odec_text app flat seg_text decseg];
       norm_apps; rewrite ?app_nil_r; reflexivity.
 Qed.
+
+(* ------------------------------------------------------------------ the other three kinds:
+   well-formed classes and the full round-trip statements (not proved in general here; see
+   Properties/C19.v for the instances proved by computation and design.d/C19-text.md) *)
+Definition wf_espp (r : espp_lay) : bool :=
+  sym_ok (el_sym r) && date_ok (el_date r) && is_dec (el_purchased r) && is_dec (el_fmv r)
+  && optdec_ok (el_sold r) && optdec_ok (el_sale r) && optdec_ok (el_fee r).
+Definition espp_roundtrip_full : Prop :=
+  forall st r, wf_espp r = true -> parse_espp (render_espp st r) = Ok (espp_record r).
+
+(* [\d,]+\.\d+ : digits with thousands separators, a point, digits; at most 28 digits *)
+Definition is_cdec (t : text) : bool :=
+  match span is_dc t with
+  | (a, 46 :: b) =>
+      hd_in is_digit a && negb (Nat.eqb (length b) 0) && forallb is_digit b
+      && Nat.leb (length (filter is_digit a) + length b) 28
+  | _ => false
+  end.
+(* [\d,\.]+ read as a whole number with separators: "1,002" *)
+Definition is_cint (t : text) : bool :=
+  hd_in is_digit t && forallb is_dc t && Nat.leb (length (filter is_digit t)) 28.
+Definition grant_ok (sale : Qc) (g : grant_lay) : bool :=
+  num_ok (gl_num g) && Nat.leb (length (gl_num g)) 19
+  && is_cdec (gl_fmv g) && is_cint (gl_shares g) && is_cdec (gl_sale g) && is_cdec (gl_fee g)
+  && Qceqb (dval (gl_sale g)) sale.
+Fixpoint fees_ok (acc : Qc) (l : list Qc) : bool :=
+  match l with
+  | [] => true
+  | x :: r => match a_add dec acc x with Ok v => fees_ok v r | _ => false end
+  end.
+Definition wf_eso (r : eso_lay) : bool :=
+  sym_ok (ol_sym r) && date_ok (ol_date r) && type_ok (ol_type r) && is_cint (ol_sold r)
+  && match ol_grants r with
+     | [] => false
+     | g :: _ => forallb (grant_ok (dval (gl_sale g))) (ol_grants r)
+     end
+  && fees_ok 0%Qc (map (fun g => dval (gl_fee g)) (ol_grants r)).
+Definition eso_roundtrip_full : Prop :=
+  forall st r, wf_eso r = true -> parse_eso (render_eso st r) = Ok (eso_records r).
+
+Definition date_ok_short (d : date_t) : bool :=
+  let '(mt, dt, yt) := d in Nat.eqb (length yt) 2 && date_ok (mt, dt, 50 :: 48 :: yt).
+Definition pre_row_ok (t : pre_row_lay) : bool :=
+  date_ok_short (pl_td t) && date_ok_short (pl_sd t) && sym_ok (pl_sym t)
+  && negb (Nat.eqb (length (pl_act t)) 0) && forallb is_upper (pl_act t) && is_ok (action_of (pl_act t))
+  && int_ok (pl_qty t) && is_dec (pl_price t) && optdec_ok (pl_comm t) && optdec_ok (pl_fee t)
+  && match pl_comm t, pl_fee t with None, None => false | _, _ => true end
+  && is_ok (a_add dec (opt_dval (pl_comm t)) (opt_dval (pl_fee t))).
+Definition wf_pre (r : pre_lay) : bool :=
+  acct_ok (pr_acct r) && negb (Nat.eqb (length (pr_rows r)) 0) && forallb pre_row_ok (pr_rows r).
+Definition pre_roundtrip_full : Prop :=
+  forall st r, wf_pre r = true -> parse_tc_pre (render_tc_pre st r) = Ok (pre_records (pr_acct r) 1 (pr_rows r)).
+
+(* equality of results up to the representation of rationals, decidable *)
+Definition oq_eqb (a b : option Qc) : bool :=
+  match a, b with Some x, Some y => Qceqb x y | None, None => true | _, _ => false end.
+Definition oz_eqb (a b : option Z) : bool :=
+  match a, b with Some x, Some y => Z.eqb x y | None, None => true | _, _ => false end.
+Definition ot_eqb (a b : option text) : bool :=
+  match a, b with Some x, Some y => text_eqb x y | None, None => true | _, _ => false end.
+Definition tbenefit_eqb (x y : tbenefit) : bool :=
+  text_eqb (tb_sec x) (tb_sec y) && Z.eqb (tb_date x) (tb_date y) && Z.eqb (tb_settle x) (tb_settle y)
+  && Qceqb (tb_price x) (tb_price y) && Qceqb (tb_shares x) (tb_shares y)
+  && oz_eqb (tb_stc_td x) (tb_stc_td y) && oz_eqb (tb_stc_sd x) (tb_stc_sd y)
+  && oq_eqb (tb_stc_price x) (tb_stc_price y) && oq_eqb (tb_stc_shares x) (tb_stc_shares y)
+  && oq_eqb (tb_stc_fee x) (tb_stc_fee y) && text_eqb (tb_note x) (tb_note y)
+  && ot_eqb (tb_sell_note x) (tb_sell_note y).
+Definition act5_eqb (a b : action5) : bool :=
+  match a, b with
+  | XBuy, XBuy | XSell, XSell | XRoc, XRoc | XSfla, XSfla | XSplit, XSplit => true
+  | _, _ => false
+  end.
+Definition ttrade_eqb (x y : ttrade) : bool :=
+  text_eqb (tt_sec x) (tt_sec y) && Z.eqb (tt_td x) (tt_td y) && Z.eqb (tt_sd x) (tt_sd y)
+  && text_eqb (tt_td_text x) (tt_td_text y) && text_eqb (tt_sd_text x) (tt_sd_text y)
+  && act5_eqb (tt_act x) (tt_act y) && Qceqb (tt_price x) (tt_price y) && Qceqb (tt_shares x) (tt_shares y)
+  && Qceqb (tt_comm x) (tt_comm y) && Nat.eqb (tt_row x) (tt_row y) && text_eqb (tt_acct x) (tt_acct y).
+Fixpoint list_eqb {T} (e : T -> T -> bool) (a b : list T) : bool :=
+  match a, b with
+  | [], [] => true
+  | x :: a', y :: b' => e x y && list_eqb e a' b'
+  | _, _ => false
+  end.
+Definition res_eqb {T} (e : T -> T -> bool) (a : res T) (b : T) : bool :=
+  match a with Ok x => e x b | _ => false end.
+
+(* concrete records (the unit-test documents of src/peripheral/broker/etrade.rs, rebuilt) *)
+Definition tx (s : string) : text := txt s.
+Definition ex_rsu : rsu_lay :=
+  {| rl_sym := tx "FOO"; rl_date := (tx "10", tx "20", tx "2023"); rl_award := tx "98765";
+     rl_released := tx "123.0000"; rl_sold := tx "67.0000"; rl_issued := tx "56.0000";
+     rl_fmv := tx "215.350000"; rl_sale := tx "213.773300"; rl_fee := tx "4.13" |}.
+Definition ex_post : post_lay :=
+  {| po_acct := tx "123-XXX123-123"; po_td := (tx "11", tx "01", tx "2023"); po_sd := (tx "11", tx "03", tx "2023");
+     po_qty := tx "123"; po_price := tx "200.01"; po_type := tx "Sold Short"; po_sym := tx "BRK.B";
+     po_comm := Some (tx "3.91"); po_fee := Some (tx "0.21") |}.
+Definition ex_espp (stc : bool) : espp_lay :=
+  {| el_sym := tx "FOO"; el_date := (tx "10", tx "20", tx "2023"); el_purchased := tx "123.0000"; el_fmv := tx "215.350000";
+     el_sold := if stc then Some (tx "67.0000") else None; el_sale := if stc then Some (tx "213.773300") else None;
+     el_fee := if stc then Some (tx "4.13") else None |}.
+Definition ex_eso : eso_lay :=
+  {| ol_sym := tx "FOO"; ol_date := (tx "10", tx "20", tx "2024"); ol_type := tx "Same-Day Sale"; ol_sold := tx "1,002";
+     ol_grants := [ {| gl_num := tx "1234"; gl_fmv := tx "1,000.00"; gl_shares := tx "100"; gl_sale := tx "1,001.00"; gl_fee := tx "10.00" |};
+                    {| gl_num := tx "1235"; gl_fmv := tx "2,000.00"; gl_shares := tx "200"; gl_sale := tx "1,001.00"; gl_fee := tx "11.00" |};
+                    {| gl_num := tx "1236"; gl_fmv := tx "90.25"; gl_shares := tx "1,300"; gl_sale := tx "1,001.00"; gl_fee := tx "0.50" |} ] |}.
+Definition ex_pre : pre_lay :=
+  {| pr_acct := tx "XXXX-9876";
+     pr_rows := [ {| pl_td := (tx "02", tx "20", tx "23"); pl_sd := (tx "02", tx "22", tx "23"); pl_sym := tx "FOO"; pl_act := tx "SELL";
+                     pl_qty := tx "6"; pl_price := tx "120.01"; pl_comm := Some (tx "20.05"); pl_fee := Some (tx "0.02") |};
+                  {| pl_td := (tx "02", tx "20", tx "23"); pl_sd := (tx "02", tx "22", tx "23"); pl_sym := tx "FOO"; pl_act := tx "SELL";
+                     pl_qty := tx "1"; pl_price := tx "120.011"; pl_comm := None; pl_fee := Some (tx "0.01") |};
+                  {| pl_td := (tx "12", tx "29", tx "22"); pl_sd := (tx "01", tx "03", tx "23"); pl_sym := tx "BRK.B"; pl_act := tx "BUY";
+                     pl_qty := tx "40"; pl_price := tx "99.5"; pl_comm := Some (tx "1.00"); pl_fee := None |} ] |}.
+
+Definition ex_rsu_note : text := tx "RSU R98765".
+Lemma ex_rsu_wf : wf_rsu ex_rsu = true. Proof. vm_compute. reflexivity. Qed.
+Lemma ex_post_wf : wf_post ex_post = true. Proof. vm_compute. reflexivity. Qed.
+
+Lemma espp_roundtrip_instances :
+  forallb (fun st => forallb (fun stc =>
+     wf_espp (ex_espp stc) && res_eqb tbenefit_eqb (parse_espp (render_espp st (ex_espp stc))) (espp_record (ex_espp stc)))
+     [true; false]) [true; false] = true.
+Proof. vm_compute. reflexivity. Qed.
+Lemma eso_roundtrip_instances :
+  forallb (fun st => wf_eso ex_eso
+     && res_eqb (list_eqb tbenefit_eqb) (parse_eso (render_eso st ex_eso)) (eso_records ex_eso)) [true; false] = true.
+Proof. vm_compute. reflexivity. Qed.
+Lemma pre_roundtrip_instances :
+  forallb (fun st => wf_pre ex_pre
+     && res_eqb (list_eqb ttrade_eqb) (parse_tc_pre (render_tc_pre st ex_pre)) (pre_records (pr_acct ex_pre) 1 (pr_rows ex_pre)))
+    [true; false] = true.
+Proof. vm_compute. reflexivity. Qed.
+
+(* ------------------------------------------------------------------ document level (RSU) *)
+Lemma is_match_app m p s : is_match m s = true -> is_match m (p ++ s) = true.
+Proof.
+  unfold is_match. intros H. induction p as [|c p IH]; [exact H|]. cbn [app find].
+  destruct (m (c :: p ++ s)); [reflexivity|exact IH].
+Qed.
+
+Lemma rsu_classified st r : classify_doc (render_rsu st r) = Some KRsu.
+Proof.
+  unfold classify_doc.
+  assert (E : is_match m_rsu_marker (render_rsu st r) = true); [|rewrite E; reflexivity].
+  unfold render_rsu. do 22 apply is_match_app.
+  generalize (rl_sym r ++ sty st rsu0_12 rsu1_12). intro tail.
+  destruct st; vm_compute; reflexivity.
+Qed.
+
+Theorem rsu_doc_roundtrip st r : wf_rsu r = true ->
+  parse_text (render_rsu st r) = Ok (Benefits [rsu_record r])
+  /\ parse_doc (render_rsu st r) = Ok (Some ([abs_benefit (rsu_record r)], [])).
+Proof.
+  intros H. assert (E : parse_text (render_rsu st r) = Ok (Benefits [rsu_record r])).
+  { unfold parse_text. rewrite rsu_classified, (rsu_text_roundtrip st r H). reflexivity. }
+  split; [exact E|]. unfold parse_doc. rewrite E. reflexivity.
+Qed.
